@@ -12,7 +12,8 @@ from .engine import Engine, Ctx, Frame, Oblig, HRef
 class Case:
     """One specification case: when(c) -> guard over the pre-state; kind return|raise; post(c) -> {name: Bool}."""
     def __init__(self, name, when=None, kind='return', exc=None, post=None, result=None, tags=None, exc_fields=None,
-                 update=None, group=None, result_fresh=None, residual=None):
+                 update=None, group=None, result_fresh=None, residual=None, forbid=False):
+        self.forbid = forbid               # no path of this kind may satisfy the guard (e.g. 'must raise here')
         self.residual = residual           # c -> {clause name: weaker Bool}: what must still hold of a clause listed as a known finding
         self.result_fresh = result_fresh   # call sites: builds a fresh result value that `post` then constrains
         self.group = group        # cases of one group with overlapping guards are alternatives (nondeterminism of
@@ -455,9 +456,13 @@ def _verify_body(eng, contract, target, mod, cname, node, res, seed, timeout_ms,
             if (case.kind == 'return' and o.kind == 'return') or \
                     (case.kind == 'raise' and o.kind == 'raise' and _exc_matches(o.val, case.exc)):
                 matching.append((case, g))
-        add('%s/outcome.%s' % (tname, okind), list(c.pc), z3.Or(*[g for _, g in matching]) if matching else z3.BoolVal(False), 'outcome')
+        allow = [g for cs_, g in matching if not cs_.forbid]
+        add('%s/outcome.%s' % (tname, okind), list(c.pc), z3.Or(*allow) if allow else z3.BoolVal(False), 'outcome')
         groups = {}
         for case, g in matching:
+            if case.forbid:
+                add('%s/%s.never' % (tname, case.name), list(c.pc) + [g], z3.BoolVal(False), 'post')
+                continue
             groups.setdefault(case.group or case.name, []).append((case, g))
         for gname, members in groups.items():
             alts = []
